@@ -116,7 +116,10 @@ def diagnose_hist(ls, mechanism, raw):
         # tells what it held)
         operand = raw['args'][0] if raw.get('args') else None
         if not isinstance(operand, (list, tuple)) and raw.get('margs') and \
-                type(operand).__name__ in ('list_iterator', 'generator'):
+                type(operand).__name__ in ('list_iterator', 'generator',
+                                           '_TreeItems', 'TreeItems'):
+            # (a one-shot iterator, or the lazy key sequence of a tree: the
+            # model's copy of the operand tells what it held)
             operand = raw['margs'][0]
         if (impl == 'py' and op == 'iand' and ro[:2] == ('exc', 'TypeError')
                 and mo[0] == 'ok' and isinstance(operand, (list, tuple))
